@@ -387,6 +387,37 @@ Section Prims.
                   end
       | _ => stuck f s
       end
+    else if is "ptr:eq" || is "ptr:ne" then
+      match args with
+      | [p; q] => match val_eptr p, val_eptr q with
+                  | Some a, Some b => lift_k (ptr_same a b) (fun r => VBool (if is "ptr:eq" then r else negb r)) s k
+                  | _, _ => stuck f s
+                  end
+      | _ => stuck f s
+      end
+    else if is "as::<usize>" then
+      (* a raw pointer cast to an integer stays an opaque address *)
+      match args with
+      | [p] => match val_eptr p with Some _ => k (VCtor "Addr" [p]) s | None => stuck f s end
+      | _ => stuck f s
+      end
+    else if is "ptr:sub" then
+      (* the byte distance of two addresses inside one object *)
+      match args with
+      | [x; y] => match ctor_is "Addr" x, ctor_is "Addr" y with
+                  | Some [VPtr a], Some [VPtr b] => lift_k (ptr_diff a b) (fun d => VInt (d * esz cfg)) s k
+                  | _, _ => stuck f s
+                  end
+      | _ => stuck f s
+      end
+    else if is "swap" then
+      match args with
+      | [p; q] => match val_eptr p, val_eptr q with
+                  | Some a, Some b => lift_k (slot_swap cfg a b) vunit s k
+                  | _, _ => stuck f s
+                  end
+      | _ => stuck f s
+      end
     else if is "ptr:gt" || is "ptr:le" then
       match args with
       | [p; q] => match val_eptr p, val_eptr q with
